@@ -233,7 +233,7 @@ func (cl *Cluster) AddNode() (*Node, error) {
 	idx := len(cl.Nodes)
 	nd := &Node{Cluster: cl, Index: idx, ln: ln}
 	nd.Port = ln.Addr().(*net.TCPAddr).Port
-	nd.Addr = fmt.Sprintf("127.0.0.1:%d", nd.Port)
+	nd.Addr = fmt.Sprintf("%s:%d", FakeHost, nd.Port)
 	nd.ID = fmt.Sprintf("%040x", 0xabc000+idx)
 	cl.Nodes = append(cl.Nodes, nd)
 	cl.mu.Unlock()
@@ -312,6 +312,10 @@ func (cl *Cluster) ForgetRequests() {
 		n.mu.Unlock()
 	}
 }
+
+// FakeHost is the host part under which new nodes are named in CLUSTER NODES, in
+// redirects and in the proxy configuration (they always listen on 127.0.0.1).
+var FakeHost = "127.0.0.1"
 
 func (cl *Cluster) NodeByAddr(addr string) *Node {
 	cl.mu.Lock()
